@@ -814,10 +814,14 @@ func runC15(a runArgs) error {
 		depth = 4
 	}
 	nEx := 0
+	exProbes := []int{11, 12, 13}
+	if thorough {
+		exProbes = []int{1, 11, 12, 15, 13}
+	}
 	var rec func(prefix []c15Op, d int)
 	build := func(prefix []c15Op, mode, cp int, tag string) {
 		ops := append([]c15Op{}, prefix...)
-		c15Emit(e, c15Case{Mode: mode, Cap: cp, Probes: []int{1, 11, 12, 15, 13}, Ops: ops}, tag)
+		c15Emit(e, c15Case{Mode: mode, Cap: cp, Probes: exProbes, Ops: ops}, tag)
 	}
 	rec = func(prefix []c15Op, d int) {
 		if d == 0 {
@@ -903,7 +907,7 @@ func runC15(a runArgs) error {
 	}
 
 	// 3. random sequences
-	nRand, maxLen := 260, 24
+	nRand, maxLen := 150, 20
 	if thorough {
 		nRand, maxLen = 4000, 40
 	}
